@@ -521,7 +521,9 @@ fn run_tables(seed: u64, idx: u64, tier: Tier, out: &mut CaseOut, c05: bool) {
                     f.what.clone(),
                     witness(&input, w_full, cfg, json!({"output": s_full, "layout": if lay.vertical {"stacked"} else {"side-by-side"}, "col_widths": lay.col_widths})),
                 );
-                return;
+                // (one report per rendering; the other widths / configurations of the case
+                // are still judged, so that a frequent recorded finding does not hide them)
+                break;
             }
         }
     }
